@@ -35,8 +35,10 @@ def parse_trace(path, dirpath, target):
             c = cls(m.group(1))
             if c and ("O_WRONLY" in m.group(2) or "O_RDWR" in m.group(2)):
                 fds[m.group(3)] = c
-                if "O_TRUNC" in m.group(2) or "O_CREAT" in m.group(2):
+                if "O_TRUNC" in m.group(2):
                     ops.append({"op": "open_trunc", "file": c, "to": "", "n": 0})
+                elif "O_CREAT" in m.group(2):
+                    ops.append({"op": "open_create", "file": c, "to": "", "n": 0})   # creates an empty file only if there is none
             elif m.group(3) in fds:
                 del fds[m.group(3)]
             continue
@@ -74,6 +76,10 @@ def materialise(pre_dir, dst, ops, pos, k, new_data, target):
         if o["op"] == "open_trunc":
             open(path(o["file"]), "wb").close()
             off[o["file"]] = 0
+        elif o["op"] == "open_create":
+            if not os.path.exists(path(o["file"])):
+                open(path(o["file"]), "wb").close()
+                off[o["file"]] = 0
         elif o["op"] == "write":
             a = off.get(o["file"], 0)
             with open(path(o["file"]), "ab") as fh:
@@ -93,14 +99,15 @@ def run(res, prop, tier, seed, work, replay=None):
     samples = []
     total_states = 0
     cmd = ""
-    for kind, target in (("wallet", "w.wlt"), ("kv", "client.json")):
+    for kind, target, prep, save, load in (("wallet", "w.wlt", "prepare-wallet", "save-wallet", "load-wallet"), ("kv", "client.json", "prepare-kv", "save-kv", "load-kv"),
+                                           ("wallet-newaddr", "w.wlt", "prepare-wallet", "newaddr-wallet", "load-wallet")):
         d = vlib.fresh_dir(os.path.join(work, kind, "live"))
         pre = os.path.join(work, kind, "pre")
-        vlib.run([binary, "prepare-" + kind, d], timeout=120)
+        vlib.run([binary, prep, d], timeout=120)
         shutil.rmtree(pre, ignore_errors=True)
         shutil.copytree(d, pre)
         trace = os.path.join(work, kind, "trace.txt")
-        p = vlib.run(["strace", "-f", "-e", "trace=openat,write,rename,renameat,renameat2,unlink,unlinkat,fsync,fdatasync,close", "-o", trace, binary, "save-" + kind, d],
+        p = vlib.run(["strace", "-f", "-e", "trace=openat,write,rename,renameat,renameat2,unlink,unlinkat,fsync,fdatasync,close", "-o", trace, binary, save, d],
                      timeout=300, check=False)
         if p.returncode != 0 or '"ok":true' not in (p.stdout or ""):
             raise Infra("the traced save failed: " + (p.stdout or "")[-500:])
@@ -126,7 +133,7 @@ def run(res, prop, tier, seed, work, replay=None):
             for pos, k in points:
                 img = os.path.join(work, kind, "img")
                 materialise(pre, img, ops, pos, k, new_data, target)
-                q = vlib.run([binary, "load-" + kind, img], timeout=120, check=False)
+                q = vlib.run([binary, load, img], timeout=120, check=False)
                 try:
                     ans = json.loads((q.stdout or "").strip().splitlines()[-1])
                 except Exception:
@@ -166,10 +173,10 @@ def run(res, prop, tier, seed, work, replay=None):
     res.coverage.update({
         "evaluations": len(images), "distinct_nontrivial": len({(r["kind"], r["pos"], r["k"]) for r in images}),
         "rule": "one crash image per crash point of the recorded save (after each file-system operation, and 1 byte / half / all-but-one byte into each write), "
-                "for the wallet file and for the key-value storage file; every image is loaded by the real start-up code; all are distinct and non-trivial",
+                "for the wallet file (plain save, and the service path that derives a new address), and for the key-value storage file; every image is loaded by the real start-up code; all are distinct and non-trivial",
         "exhaustive": True, "tlc_states_over_recorded_programs": total_states, "samples": samples,
         "images_by_outcome": {k: sum(1 for r in images if (r["ok"], r["content"]) == k2) for k, k2 in (("old", (True, "old")), ("new", (True, "new")))},
-        "traces_validated_against_impl": 2, "checker_cmd": cmd,
+        "traces_validated_against_impl": 3, "checker_cmd": cmd,
     })
     res.assumptions += ["a crash is a process stop: data handed to write() reaches the file, no torn sectors, no lost renames (power failure is outside the statement)",
                         "strace sees every file operation of the save (the Go runtime uses openat/write/renameat/unlinkat)",
